@@ -207,6 +207,8 @@ def run(ctx):
     for rel, cname, fname, node in hits:
         ctx.ob("C07.R4", "%s:%s.%s" % (rel, cname, fname), "the encoder does not name the physical register `%s`" % node.id, False, construct="fixed-register:%s.%s:%s" % (cname, fname, node.id), node=node)
     ctx.ob("C07.R4", "ppci/arch/*", "no encoder names a physical register", not hits, construct="no-fixed-register")
+    ctx.rule("C07.R5", "x86-64: the destination of a read-modify-write instruction (shift, add, neg, ...) in a pattern is never one of the pattern's input registers", floor=30)
+    ctx.extra["x86_rmw_sites"] = x86_destination_not_an_input(ctx, dump, "C07.R5")
     ctx.rule("C07.R3", "an undeclared (implicit) fixed-register operand is loaded immediately before the instruction that reads it", floor=20)
     ctx.extra["implicit_operand_sites"] = implicit_operand_windows(ctx, dump, "x86_64", "C07.R3")
     # R2: flag sanity + sibling vectors
@@ -229,3 +231,60 @@ CONSERVATIVE_READ = {"rsb_ins": "thumb rsbs rd, rn, #0 built by the two-address 
 NORMALISING_IN_PLACE = {
     "riscv": ("pattern_i8_to_i32", "pattern_i16_to_i32", "pattern_8_to_16", "pattern_8_to_32", "pattern_16_to_32", "pattern_shr_i8", "pattern_shr_i16", "pattern_shr_u8", "pattern_shr_u16"),
 }
+
+
+# x86-64 mnemonics that read AND overwrite their first (destination) operand, whatever the declaration says (Intel SDM vol. 2)
+X86_RMW = {"add", "sub", "and", "or", "xor", "adc", "sbb", "shl", "shr", "sar", "rol", "ror", "inc", "dec", "neg", "not", "imul", "xchg",
+           "addsd", "subsd", "mulsd", "divsd", "addss", "subss", "mulss", "divss"}
+
+
+def x86_destination_not_an_input(ctx, dump, rid):
+    """An r/m constructor declares its register read-only, so `shr [rm=reg]` does not tell the allocator that the
+    register changes.  That is only harmless while the register is a temporary of the pattern: a child register
+    (an input that may still be live) must never be the destination of a read-modify-write instruction."""
+    from ..core import walk_no_nested, last_name, params_of
+    a = dump["archs"]["x86_64"]
+    model = isamod.IsaModel(dump, "x86_64")
+    mnem = {}
+    for ins in a["instructions"]:
+        if ins["syntax"] and isinstance(ins["syntax"][0], str):
+            mnem.setdefault(ins["name"], set()).add(ins["syntax"][0])
+    n = 0
+    seen = set()
+    for pat in a["patterns"]:
+        key = (pat["file"], pat["method"], pat["line"])
+        if key in seen:
+            continue
+        seen.add(key)
+        fn = isamod.find_pattern_function(ctx.project, pat)
+        if fn is None:
+            continue
+        ps = params_of(fn)
+        children = set(ps[2:]) if len(ps) > 2 else set()
+        site = "%s:%s" % (fn._module.rel, fn.name)
+        for c in ast.walk(fn):
+            if not (isinstance(c, ast.Call) and last_name(c) == "emit" and c.args and isinstance(c.args[0], ast.Call)):
+                continue
+            call = c.args[0]
+            cname = norm(call.func).split(".")[-1]
+            decl = model.resolve(fn._module, cname)
+            ms = set(mnem.get(cname, set()))
+            if decl is not None and decl["syntax"] and isinstance(decl["syntax"][0], str):
+                ms.add(decl["syntax"][0])
+            if not ms and norm(call.func).startswith("bits"):
+                import re as _re
+                w = _re.match(r"[A-Z][a-z]+", cname)   # bits64.ShrRm, bits32.AddRmReg: attribute names of the per-width collections
+                if w and w.group(0).lower() in X86_RMW:
+                    ms.add(w.group(0).lower())
+            if not (ms & X86_RMW) or not call.args:
+                continue
+            dst = call.args[0]
+            # unwrap a register-direct r/m constructor: RmReg64(x)
+            if isinstance(dst, ast.Call) and norm(dst.func).startswith("RmReg") and dst.args:
+                dst = dst.args[0]
+            if not isinstance(dst, ast.Name):
+                continue
+            n += 1
+            ctx.ob(rid, site, "`%s` overwrites its first operand: `%s` is a register the pattern owns, not one of its inputs (%s)" % (sorted(ms & X86_RMW)[0], dst.id, ", ".join(sorted(children)) or "-"),
+                   dst.id not in children, construct="rmw-destination:%s:%s" % (cname, dst.id), node=c, detail=" ".join(norm(call).split())[:70])
+    return n
